@@ -30,6 +30,7 @@ fn norm(o: &Outcome) -> Outcome {
         Outcome::Handler(s) => {
             let mut s = s.clone();
             s.match_pattern = None;
+            s.guard_marker = String::new();
             Outcome::Handler(s)
         }
         o => o.clone(),
@@ -57,6 +58,24 @@ fn tag_of(o: &Outcome) -> Option<&str> {
 
 /// `Some((clause, signature, what))` if `got` is not an acceptable outcome.
 fn judge(t: &Table, req: &Req, exp: &refr::Expected, got: &Outcome) -> Option<(String, String, String)> {
+    // the guard of the resource that ran resolves application data like its handler does
+    if let Outcome::Handler(s) = got {
+        let handler_saw = s.marker.clone().unwrap_or_else(|| "none".into());
+        if s.tag.starts_with('r') && s.guard_marker != "-" && !s.guard_marker.is_empty() && s.guard_marker != handler_saw {
+            return Some((
+                "d".into(),
+                "app_data:guard-and-handler-disagree".into(),
+                format!(
+                    "request {} on {}: the guard of the resource that ran resolved app_data::<Marker>() to {:?}, its handler {} to {:?}",
+                    req.show(),
+                    t.show(),
+                    s.guard_marker,
+                    s.tag,
+                    handler_saw
+                ),
+            ));
+        }
+    }
     let gotn = norm(got);
     if exp.outcomes.iter().any(|e| *e == gotn) {
         return None;
